@@ -632,21 +632,14 @@ Proof.
   change (0 * 3600 + 0 * 60) with 0. unfold qz. change (inject_Z 0) with 0%Q. ring.
 Qed.
 
-(* %s: Python's int() truncates toward zero, POSIX time_t is rounded down;
-   they agree from the epoch on, and before it on whole seconds *)
-Definition unix_agrees (md : mode) (p : tp) : Prop :=
-  (epoch_instant md <= instant md p)%Q \/ qis_int (instant md p - epoch_instant md) = true.
-
-Lemma unix_value md r : valid_tp md r = true -> unix_agrees md r ->
+(* %s: the package prints floor(seconds since the epoch), POSIX time_t is the
+   same rounding down -- for every valid point, before the epoch included *)
+Lemma unix_value md r : valid_tp md r = true ->
   seconds_since_unix_epoch md r = Some (cunix (civil_at md r)).
 Proof.
-  intros V A. destruct (seconds_since_unix_epoch_spec md r V) as (k & E & K1 & K2).
+  intros V. destruct (seconds_since_unix_epoch_spec md r V) as (k & E & K1 & _).
   rewrite E. f_equal. unfold civil_at. cbn [cunix]. pose proof (epoch_instant_eq md) as EE.
-  destruct A as [A|A].
-  - rewrite K1 by (rewrite EE; exact A). apply Qfloor_comp. rewrite EE. reflexivity.
-  - assert (A' : qis_int (instant md r - instant md unix_ref) = true).
-    { apply qis_int_iff. apply qis_int_iff in A. destruct A as [z Hz]. exists z. rewrite EE. exact Hz. }
-    specialize (K2 A'). rewrite <- (Qfloor_Z k). apply Qfloor_comp. rewrite K2, EE. reflexivity.
+  rewrite K1. apply Qfloor_comp. rewrite EE. reflexivity.
 Qed.
 
 (* ================================================================== *)
@@ -655,10 +648,9 @@ Qed.
 Theorem strftime_posix : forall ned md p fmt c,
   valid_tp md p = true -> civil_of md p = Some c -> 0 <= cy c <= 9999 ->
   supported_fmt (split_format fmt "") = true -> stray_pct (split_format fmt "") = false ->
-  (uses ["%s"] (split_format fmt "") = true -> unix_agrees md p) ->
   exists s, strftime ned STRFTIME_TABLE md p fmt = DOk s /\ posix c (split_format fmt "") = Some s.
 Proof.
-  intros ned md p fmt c V CO Ry S NS HU.
+  intros ned md p fmt c V CO Ry S NS.
   unfold civil_of in CO. rewrite V in CO. inversion CO as [CE]. clear CO.
   destruct (calendarised md p V) as (q & Eq & Vq & Iq & Kq & Zq).
   destruct (normalised_spec md q Vq) as (Nr & Ir & Kr & _ & Zr).
@@ -675,10 +667,7 @@ Proof.
   assert (R : civil_ranges md c).
   { constructor; try assumption. rewrite <- HZ. exact VZ. }
   assert (HU' : uses ["%s"] (split_format fmt "") = true -> seconds_since_unix_epoch md r = Some (cunix c)).
-  { intros U. rewrite <- CR. apply unix_value; [apply normal_valid; exact Nr|].
-    destruct (HU U) as [A|A]; [left|right].
-    - rewrite Ir, Iq. exact A.
-    - apply qis_int_iff. apply qis_int_iff in A. destruct A as [z Hz]. exists z. rewrite Ir, Iq. exact Hz. }
+  { intros _. rewrite <- CR. apply unix_value. apply normal_valid. exact Nr. }
   destruct (build_render md r c HC HO HY HH HM HS HZ R _ S HU') as (tmpl & props & s & B & C & Rn & P).
   exists s. split; [|rewrite ?CE; exact P].
   rewrite strftime_unfold, B, Eq, NS. fold r.
@@ -1258,7 +1247,6 @@ Proof.
   assert (US : uses ["%s"] items = false).
   { unfold parse_fmt in F. apply andb_true_iff in F. destruct F as [_ F]. apply negb_true_iff in F. exact F. }
   destruct (strftime_posix ned md p fmt c V CO Ry S NS) as (s & E1 & E2).
-  { fold items. rewrite US. discriminate. }
   pose proof (civil_of_ranges md p c CO Ry) as R.
   destruct (strptime_defaults md cfg c fmt s R F DJ ltac:(fold items; congruence) E2) as (pp & E3 & E4 & Vq).
   exists s, pp, (parsed_point cfg c items). repeat split; try assumption.
@@ -1289,7 +1277,7 @@ Proof.
 Qed.
 
 (* ================================================================== *)
-(* 9. the table is exactly the eleven; the refuted unrestricted %s     *)
+(* 9. the table is exactly the eleven; %s before the epoch             *)
 (* ================================================================== *)
 Theorem table_exact :
   length STRFTIME_TABLE = 11%nat /\
@@ -1298,15 +1286,13 @@ Theorem table_exact :
   forallb (fun d => mem d (map fst STRFTIME_TABLE)) SUPPORTED = true.
 Proof. vm_compute. repeat split; reflexivity. Qed.
 
-(* %s without the restriction of strftime_posix is FALSE of the model (and of
-   the package: int() truncates toward zero): half a second before the epoch
-   prints Unix time 0 although %S of the same call prints 59; POSIX time_t
-   of that instant is -1 *)
+(* an instance of strftime_posix that a truncating %s (str(int(...)), "59 0")
+   would fail: half a second before the epoch, %S prints 59 and %s prints -1,
+   the POSIX time_t of that instant *)
 Definition p_before_epoch : tp := mkTp (Cal 1969 12 31) (HMS 23 59 (119 # 2)) (mkZone 0 0).
-Theorem strftime_unix_refuted :
+Lemma strftime_before_epoch :
   valid_tp G p_before_epoch = true /\
-  strftime 2 STRFTIME_TABLE G p_before_epoch "%S %s" = DOk "59 0" /\
-  match civil_of G p_before_epoch with
-  | Some c => posix c (split_format "%S %s" "") = Some "59 -1"
-  | None => False end.
+  strftime 2 STRFTIME_TABLE G p_before_epoch "%S %s" = DOk "59 -1" /\
+  (match civil_of G p_before_epoch with
+   | Some c => posix c (split_format "%S %s" "") | None => None end) = Some "59 -1".
 Proof. vm_compute. repeat split; reflexivity. Qed.
